@@ -82,6 +82,23 @@ def run (C : Core κ β) : BS κ β → List Op → List β × BS κ β
 /-- `Random::split`: the child is the generator as it was, the parent jumps -/
 def split (C : Core κ β) (s : BS κ β) : BS κ β × BS κ β := (s, jump C s)
 
+/-! ### serde (`#[serde(default = …, skip_serializing_if = …)]` on `index` and `random`) -/
+
+/-- what serde writes for a block generator over bytes -/
+structure Ser (κ : Type) where
+  state : κ
+  index : Option Nat                 -- `skip_serializing_if = "is_index_oob"`
+  random : Option (List (BitVec 8))  -- `skip_serializing_if = "is_default"`; the 256 bytes otherwise
+
+def bufList (buf : Nat → BitVec 8) : List (BitVec 8) := take buf 0 256
+
+def ser (s : BS κ (BitVec 8)) : Ser κ :=
+  ⟨s.core, if s.index ≥ 256 then none else some s.index,
+   if bufList s.buf = List.replicate 256 0#8 then none else some (bufList s.buf)⟩
+
+def de (j : Ser κ) : BS κ (BitVec 8) :=
+  ⟨j.state, j.index.getD (2 ^ 32 - 1), fun i => (j.random.getD (List.replicate 256 0#8)).getD i 0#8⟩
+
 /-! ### the byte instance: ChaCha -/
 
 open Urandom.ChaCha in
